@@ -851,7 +851,8 @@ Inductive gpred :=
 | GP (q : option qobj)              (* NullPredicate / an ordinary query object *)
 | GPChild (g : gpred)               (* ChildQuery(g):   SELECT id FROM fit WHERE parent_id in (g.fit_query) *)
 | GPBest (g : gpred)                (* BestFitQuery(g): WITH children AS (...), best AS (...) SELECT id ...; *)
-| GPAnd (g : gpred) (q : qobj).     (* And(g, q...) with g a Child / BestFit query: id IN (g.fit_query) AND id IN (q.fit_query) *)
+| GPAnd (g : gpred) (q : qobj)      (* And(g, q...) with g a Child / BestFit / Ids query: id IN (g.fit_query) AND id IN (q.fit_query) *)
+| GPIds (ids : list string).        (* IdsQuery(ids) of the proposed repair of slicing: SELECT id FROM fit WHERE id IN ('a', 'b') *)
 
 Fixpoint gsel (g : gpred) (db : list fit) : list fit :=
   match g with
@@ -860,6 +861,7 @@ Fixpoint gsel (g : gpred) (db : list fit) : list fit :=
   | GPChild g' => children_of (gsel g' db) db
   | GPBest g' => best_of (children_of (gsel g' db) db)
   | GPAnd g' q => filter (fun f => id_in (fid f) (gsel g' db) && sem q f) db
+  | GPIds ids => filter (fun f => mem_str (fid f) ids) db
   end.
 
 (* BestFitQuery.fit_query ends with ';': it can only be executed as the whole statement; nested in
@@ -871,6 +873,7 @@ Fixpoint has_best (g : gpred) : bool :=
   | GPChild g' => has_best g'
   | GPBest _ => true
   | GPAnd g' _ => has_best g'
+  | GPIds _ => false
   end.
 Definition gsql_ok (bfix : bool) (g : gpred) : bool :=
   bfix || match g with GPBest g' => negb (has_best g') | _ => negb (has_best g) end.
@@ -938,6 +941,38 @@ Definition run_gops (vr : variant) (bfix : bool) (top_only : bool) (db : list fi
   : result (list fit * list (okey * bool)) :=
   if existsb has_shadow (gop_preds ops) then Err EShadow else
   bind (fold_gops vr bfix db (g_init top_only) ops) (fun st =>
+  if g_bad st || negb (gsql_ok bfix (g_pred st)) then Err ESql else Ok (g_fits vr db st, g_keys st)).
+
+(* ----- the proposed repair of slicing (proposed_fixes/C10-slice-positional.diff): an aggregator that carries a
+   slice stands for exactly its fits (IdsQuery) when it is queried / ordered / navigated further; a stepped slice
+   keeps the fits of the list slice, walking the ordering backwards for a negative step ----- *)
+Definition has_slice (st : gstate) : bool :=
+  negb (Z.eqb (g_off st) 0 && match g_lim st with None => true | Some _ => false end).
+Definition freeze (vr : variant) (db : list fit) (st : gstate) : gstate :=
+  if has_slice st
+  then mkG (GPIds (map fid (g_fits vr db st))) (g_bad st) (g_keys st) 0%Z None (g_top st) (g_grid st)
+  else st.
+Definition flip_keys (keys : list (okey * bool)) : list (okey * bool) := map (fun kr => (fst kr, negb (snd kr))) keys.
+Definition gop_step_s (vr : variant) (bfix : bool) (db : list fit) (st : gstate) (o : gop) : result gstate :=
+  match o with
+  | GSlice start stop (Some stp) =>
+      if Z.eqb stp 1 then gop_step vr bfix db st o
+      else if g_bad st || negb (gsql_ok bfix (g_pred st)) then Err ESql
+      else let sel := py_slice_step (g_fits vr db st) start stop (Some stp) in
+           Ok (mkG (GPIds (map fid sel)) (g_bad st) (if (stp <? 0)%Z then flip_keys (g_keys st) else g_keys st)
+                   0%Z None (g_top st) (g_grid st))
+  | GSlice _ _ None => gop_step vr bfix db st o
+  | _ => gop_step vr bfix db (freeze vr db st) o
+  end.
+Fixpoint fold_gops_s (vr : variant) (bfix : bool) (db : list fit) (st : gstate) (ops : list gop) : result gstate :=
+  match ops with
+  | [] => Ok st
+  | o :: r => bind (gop_step_s vr bfix db st o) (fun st' => fold_gops_s vr bfix db st' r)
+  end.
+Definition run_gops_s (vr : variant) (bfix : bool) (top_only : bool) (db : list fit) (ops : list gop)
+  : result (list fit * list (okey * bool)) :=
+  if existsb has_shadow (gop_preds ops) then Err EShadow else
+  bind (fold_gops_s vr bfix db (g_init top_only) ops) (fun st =>
   if g_bad st || negb (gsql_ok bfix (g_pred st)) then Err ESql else Ok (g_fits vr db st, g_keys st)).
 
 (* the same sequence on Python lists of fits: query = filter; grid_searches = the grid searches among the
@@ -1028,24 +1063,43 @@ Definition nth_id (l : list fit) (i : Z) : option string :=
 Definition opt_str_eq (a : option string) (b : string) : bool :=
   match a with Some x => String.eqb x b | None => false end.
 
+Definition grid_outcome_ok (db : list fit) (r : result (list fit * list (okey * bool))) (obs : outcome)
+                           (olen : Z) (oidx : option (Z * string)) : bool :=
+  forallb fit_coherent db &&
+  match r, obs with
+  | Ok (l, keys), RIds ids =>
+      (if keys_total keys
+       then str_list_eqb (map fid l) ids
+       else str_list_eqb (sort_str (map fid l)) (sort_str ids)
+            && sortedb (lex_le keys) (fits_of_ids db ids))
+      && Z.eqb (Z.of_nat (List.length l)) olen
+      && match oidx with
+         | Some (i, x) => if keys_total keys then opt_str_eq (nth_id l i) x else true
+         | None => true
+         end
+  | Err e, RExc e' => err_eqb e e'
+  | _, _ => false
+  end.
+Definition ops_outcome_ok (r : result (list fit * list (okey * bool))) (obs : outcome)
+                          (olen : Z) (oidx : option (Z * string)) : bool :=
+  match r, obs with
+  | Ok (l, keys), RIds ids =>
+      (match keys with
+       | [] => str_list_eqb (sort_str (map fid l)) (sort_str ids)
+       | _ => str_list_eqb (map fid l) ids
+       end)
+      && Z.eqb (Z.of_nat (List.length l)) olen
+      && match oidx, keys with
+         | Some (i, x), _ :: _ => opt_str_eq (nth_id l i) x
+         | _, _ => true
+         end
+  | Err e, RExc e' => err_eqb e e'
+  | _, _ => false
+  end.
+
 Definition check_case_with (vr : variant) (bfix : bool) (c : case) : bool :=
   match c with
-  | CGrid db top_only ops obs olen oidx =>
-      forallb fit_coherent db &&
-      match run_gops vr bfix top_only db ops, obs with
-      | Ok (l, keys), RIds ids =>
-          (if keys_total keys
-           then str_list_eqb (map fid l) ids
-           else str_list_eqb (sort_str (map fid l)) (sort_str ids)
-                && sortedb (lex_le keys) (fits_of_ids db ids))
-          && Z.eqb (Z.of_nat (List.length l)) olen
-          && match oidx with
-             | Some (i, x) => if keys_total keys then opt_str_eq (nth_id l i) x else true
-             | None => true
-             end
-      | Err e, RExc e' => err_eqb e e'
-      | _, _ => false
-      end
+  | CGrid db top_only ops obs olen oidx => grid_outcome_ok db (run_gops vr bfix top_only db ops) obs olen oidx
   | CQuery db p top_only obs =>
       match model_query vr db p, obs with
       | Ok l, RIds ids => str_list_eqb (sort_str (map fid (if top_only then filter is_top l else l))) (sort_str ids)
@@ -1058,23 +1112,18 @@ Definition check_case_with (vr : variant) (bfix : bool) (c : case) : bool :=
       | Err e, RExc e' => err_eqb e e'
       | _, _ => false
       end
-  | COps db top_only ops obs olen oidx =>
-      match run_ops vr top_only db ops, obs with
-      | Ok (l, keys), RIds ids =>
-          (match keys with
-           | [] => str_list_eqb (sort_str (map fid l)) (sort_str ids)
-           | _ => str_list_eqb (map fid l) ids
-           end)
-          && Z.eqb (Z.of_nat (List.length l)) olen
-          && match oidx, keys with
-             | Some (i, x), _ :: _ => opt_str_eq (nth_id l i) x
-             | _, _ => true
-             end
-      | Err e, RExc e' => err_eqb e e'
-      | _, _ => false
-      end
+  | COps db top_only ops obs olen oidx => ops_outcome_ok (run_ops vr top_only db ops) obs olen oidx
   end.
 Definition check_case := check_case_with current false.
+(* the proposed repair of slicing applied on a scratch copy *)
+Definition gop_of_op (o : op) : gop :=
+  match o with OQuery p => GQuery p | OOrder k rev => GOrder k rev | OSlice a b c => GSlice a b c end.
+Definition check_case_s (vr : variant) (bfix : bool) (c : case) : bool :=
+  match c with
+  | CGrid db top_only ops obs olen oidx => grid_outcome_ok db (run_gops_s vr bfix top_only db ops) obs olen oidx
+  | COps db top_only ops obs olen oidx => ops_outcome_ok (run_gops_s vr bfix top_only db (map gop_of_op ops)) obs olen oidx
+  | _ => check_case_with vr bfix c
+  end.
 
 (* label functions evaluated by the harness on the abstract case (never on the outcome) *)
 Definition case_db (c : case) : list fit :=
@@ -1136,8 +1185,8 @@ Fixpoint attr_tests (p : pred) : list acond :=
   end.
 
 Definition bit (b : bool) (w : N) : N := if b then w else 0%N.
-Definition case_labels_with' (vr : variant) (bfix : bool) (c : case) : N :=
-  (bit (check_case_with vr bfix c) 1
+Definition case_labels_gen (agree : bool) (vr : variant) (c : case) : N :=
+  (bit agree 1
    + bit (on_pred c (fun p => negb (safe_with vr true false false false p))) 2    (* inverted NamedQuery in a name merge *)
    + bit (on_pred c (fun p => negb (safe_with vr false true false false p))) 4    (* Or-merge over different tables *)
    + bit (on_pred c (has_not_junction vr)) 8                                      (* ~ of a junction *)
@@ -1149,7 +1198,10 @@ Definition case_labels_with' (vr : variant) (bfix : bool) (c : case) : N :=
    + bit (on_pred c (fun p => existsb (fun a => existsb (fun f => negb (acond_plain f a)) (case_db c)) (attr_tests p))) 512  (* LIKE <> substring *)
    + bit (on_pred c (quote_bad vr)) 1024                                          (* unescaped quote *)
    + bit (on_pred c has_shadow) 2048)%N.                                          (* shadowed path segment *)
+Definition case_labels_with' (vr : variant) (bfix : bool) (c : case) : N := case_labels_gen (check_case_with vr bfix c) vr c.
 Definition case_labels_with (vr : variant) := case_labels_with' vr false.
+Definition case_labels_slicefix (c : case) : N := case_labels_gen (check_case_s current false c) current c.
+Definition case_labels_bothfix (c : case) : N := case_labels_gen (check_case_s current true c) current c.
 Definition case_labels := case_labels_with current.
 (* the proposed repair of BestFitQuery (no trailing ';') applied on a scratch copy *)
 Definition case_labels_bestfix := case_labels_with' current true.
